@@ -240,6 +240,16 @@ def is_identity_columns(t):
         # np.broadcast_to(arange(K)[:, None], (K, F)): the column repeated along the second axis
         shp = strip_views(call_arg(t, 1, 'shape'))
         return is_identity_columns(call_arg(t, 0)) and shp.op in ('tuple', 'list') and len(shp.args[0]) == 2
+    if is_call_to(t, 'numpy.reshape'):
+        # np.arange(K).reshape(K, 1) / .reshape(-1, 1): the column written as a reshape of the 1-D range
+        x0 = strip_views(call_arg(t, 0))
+        shp = list(call_parts(t)[1][1:])
+        if len(shp) == 1 and strip_views(shp[0]).op in ('tuple', 'list'):
+            shp = list(strip_views(shp[0]).args[0])
+        if is_call_to(x0, 'numpy.arange') and len(call_parts(x0)[1]) == 1 and len(shp) == 2 and const_val(strip_views(shp[1])) == 1:
+            first = strip_views(shp[0])
+            return const_val(first) == -1 or first is strip_views(call_parts(x0)[1][0])
+        return False
     if t.op == 'sub':
         ins = newaxis_insertions(t)
         if ins is not None and ins[1] in ([1], [-1]):
@@ -357,7 +367,14 @@ def check_inline_em_alignment(run, A):
             if st in (None, 'none'):
                 return st
             return ('FKT', st[1] + 1) if st[0] == 'FKT' else None
+        if is_call_to(t, 'numpy.transpose', 'numpy.moveaxis', 'numpy.swapaxes', 'numpy.rollaxis', 'method:transpose', 'method:swapaxes', 'numpy.permute_dims') and depth < 12:
+            # a pure reordering whose axis order is not one of the forms read above (built at run time, ...): the values are untouched, the layout is not known
+            opnd = call_arg(t, 0) if not call_parts(t)[0].startswith('method:') else strip_views(t.args[0]).args[0]
+            if opnd is not None and (value_preserving(opnd, pname, depth + 1) is not None or unfollowed):
+                unfollowed.append(t)
         return None
+
+    unfollowed = []
 
     def _gather_by_mapping(idx):
         idx = strip_views(idx)
@@ -394,8 +411,13 @@ def check_inline_em_alignment(run, A):
             ok_q = aligned_once(r.args[0][1], 'quadratic_form', optional=True) and ok_q
         else:
             ok_a = aligned_once(r, 'affiliation') and ok_a
-    run.check(ok_a and ok_q, 'R-PERM', 'inline EM alignment: every returned stream is its input, permuted exactly once by the mapping on the (K, F, T) layout and returned in the '
-              "caller's (F, K, T) layout", fn.loc(), '', '; '.join(why), construct=f'R-PERM::{q}::value-preserving')
+    if unfollowed and not (ok_a and ok_q):
+        run.unresolved('R-PERM', 'inline EM alignment: every returned stream is its input, permuted exactly once by the mapping on the (K, F, T) layout and returned in the '
+                       "caller's (F, K, T) layout", fn.loc(getattr(unfollowed[0], 'node', None)),
+                       f'`{norm_stmt(unfollowed[0].node)[:90]}` reorders the axes in an order that is computed, not written: the layout cannot be followed')
+    else:
+        run.check(ok_a and ok_q, 'R-PERM', 'inline EM alignment: every returned stream is its input, permuted exactly once by the mapping on the (K, F, T) layout and returned in the '
+                  "caller's (F, K, T) layout", fn.loc(), '', '; '.join(why), construct=f'R-PERM::{q}::value-preserving')
     # the mapping is computed from the (K, F, T)-transposed affiliation
     ok_in = swaps_first_two_of_three(call_arg(maps[0], 1)) is not None
     run.check(ok_in, 'R-PERM', 'inline EM alignment: aligner sees (K, F, T)', fn.loc(maps[0].node), '', 'calculate_mapping is not called on the (1, 0, 2)-transposed affiliation', construct=f'R-PERM::{q}::layout')
@@ -616,6 +638,34 @@ def check_inline_pa(run, A):
     cterm, L = cand
     loopvars = [x for x in walk_terms(cterm) if x.op == 'elem' and x.extra is L]
     same = any(struct_eq_modulo(strip_views(cterm), final, [(lv, m)]) for lv in loopvars for m in best_mus)
+    if not same:
+        # another spelling of the same log-pdf?  Which axis of which stream the permutation indexes is compared instead: np.take(spatial[f], p, axis=0) and
+        # spatial[f, p, :] both put it on axis 1 of the spatial stream.  Equal signatures of a sum of the two streams: the same log-pdf; different ones: the deviation;
+        # anything else: not decided
+        def signature(term, markers):
+            out, streams = set(), set()
+            for x in walk_terms(term, into_mu=False):
+                if x.op == 'sub':
+                    base, items = index_chain(x)
+                    if isinstance(base, T) and base.op == 'param' and base.args[0] in ('spatial_log_pdf', 'spectral_log_pdf'):
+                        streams.add(base.args[0])
+                        for k, it_ in enumerate(items):
+                            if isinstance(it_, T) and any(strip_views(y) in markers for y in unwrap_gamma(strip_views(it_)) if isinstance(y, T)):
+                                out.add((base.args[0], k))
+            return out, streams
+        def plain_sum(term):
+            term = strip_views(term)
+            return term.op == 'binop' and term.args[0] == 'Add' and all(strip_views(z).op == 'sub' for z in term.args[1:])
+        sc, stc = signature(strip_views(cterm), loopvars)
+        sf, stf = signature(final, best_mus)
+        if plain_sum(cterm) and plain_sum(final) and sc and sf and stc == stf:
+            if sc == sf:
+                same = True
+            # else: the permutation sits on another stream / axis - the deviation reported below
+        else:
+            run.unresolved('R-SEL', 'inline spatial/spectral alignment: the searched criterion and the final posterior use the same permuted log-pdf', fn2.loc(),
+                           'the candidate log-pdf and the final log-pdf are written differently and are not both a plain sum of the two indexed streams')
+            return
     run.check(same, 'R-SEL', 'inline spatial/spectral alignment: the searched criterion and the final posterior use the same permuted log-pdf', fn2.loc(), '',
               'the candidate log-pdf scored inside the search differs from the log-pdf built with the winning permutation (e.g. the other stream is permuted): '
               'the applied permutation is the inverse of the optimal one for K >= 3', construct=f'R-SEL::{q2}::criterion-equals-use')
